@@ -138,7 +138,11 @@ def render_artifacts(proj, archive_path):
            "fingerprintIf: True",
            "fingerprintScript: " + yaml_block('cat "$VF_CTL/hostfp"'),
            "buildScript: " + yaml_block(build_script("app", proj["bver"], ["V"], extra='echo "host=$(cat "$VF_CTL/hostfp")"')),
-           "packageScript: " + yaml_block(package_script("app", proj["pver"]))]
+           "packageScript: " + yaml_block(package_script("app", proj["pver"]) +
+                                          ("" if proj.get("reloc", True) else "pwd > where.txt\n"))]
+    if not proj.get("reloc", True):
+        # a location dependent result: Bob tags the Build-Id of non-relocatable packages with the workspace path
+        app.insert(1, "relocatable: False")
     files["recipes/app.yaml"] = "\n".join(app) + "\n"
     srcs = {"src/app": src_files("app", 0), "src/lib": src_files("lib", proj["srcl"])}
     return files, srcs
